@@ -380,6 +380,91 @@ fn check_combined<'a>(ctx: &mut Ctx, ts: &'a [Term<'a>], states: &[Option<Datum<
     }
 }
 /// Full observation: by state, by command, combined read. Returns false if anything was wrong.
+fn last_state(t: &Term<'_>) -> Result<Option<Datum<State>>, String> {
+    catch(|| Settable::<Datum<State>, E>::get_last_request(&*t.borrow()))
+}
+fn last_command(t: &Term<'_>) -> Result<Option<Datum<Command>>, String> {
+    catch(|| Settable::<Datum<Command>, E>::get_last_request(&*t.borrow()))
+}
+/// Every read the monitor knows, each under panic capture.
+struct Reads {
+    s: Result<Out<State>, String>,
+    c: Result<Out<Command>, String>,
+    d: Result<Out<TerminalData>, String>,
+    ls: Result<Option<Datum<State>>, String>,
+    lc: Result<Option<Datum<Command>>, String>,
+}
+fn take_reads(t: &Term<'_>) -> Reads {
+    Reads { s: read_state(t), c: read_command(t), d: read_combined(t), ls: last_state(t), lc: last_command(t) }
+}
+fn tdsame(a: &TerminalData, b: &TerminalData) -> bool {
+    a.time == b.time
+        && match (&a.command, &b.command) {
+            (None, None) => true,
+            (Some(x), Some(y)) => csame(x, y),
+            _ => false,
+        }
+        && match (&a.state, &b.state) {
+            (None, None) => true,
+            (Some(x), Some(y)) => ssame(x, y),
+            _ => false,
+        }
+}
+fn osame<T>(a: &Option<Datum<T>>, b: &Option<Datum<T>>, veq: impl Fn(&T, &T) -> bool) -> bool {
+    match (a, b) {
+        (None, None) => true,
+        (Some(x), Some(y)) => x.time == y.time && veq(&x.value, &y.value),
+        _ => false,
+    }
+}
+/// Reads under outstanding SHARED borrows (`Ref`, never `RefMut`) of (a) the partner, (b) the terminal
+/// itself, (c) both, (d) an unrelated terminal: every read only needs `&self` of either end, so none may
+/// panic and each must give the same answer as without the guard.
+fn guarded_reads<'a>(ctx: &mut Ctx, ts: &'a [Term<'a>], m: &Model, hist: &dyn Fn() -> String) -> bool {
+    let n = ts.len();
+    let before = ctx.rep.violation_count;
+    for k in 0..n {
+        let base = take_reads(&ts[k]);
+        let partner = m.partner(k);
+        let unrelated = (0..n).find(|&u| u != k && Some(u) != partner);
+        let mut configs: Vec<(&'static str, Vec<usize>)> = vec![("self", vec![k])];
+        if let Some(j) = partner {
+            configs.push(("partner", vec![j]));
+            configs.push(("both", vec![k, j]));
+            configs.push(("both", vec![j, k]));
+        }
+        if let Some(u) = unrelated {
+            configs.push(("unrelated", vec![u]));
+        }
+        for (cfg, idxs) in configs {
+            ctx.rep.tally(&format!("guarded_reads_{}_{}", cfg, if partner.is_some() { "linked" } else { "unlinked" }));
+            let got = {
+                let _guards: Vec<std::cell::Ref<'_, Terminal<'a, E>>> = idxs.iter().map(|&x| ts[x].borrow()).collect();
+                take_reads(&ts[k])
+            };
+            // (name, panic message under the guard if any, equal to the unguarded answer?, baseline usable?)
+            let rows: [(&str, Option<&String>, bool, bool); 5] = [
+                ("state", got.s.as_ref().err(), matches!((&got.s, &base.s), (Ok(a), Ok(b)) if out_same(a, b, ssame)), base.s.is_ok()),
+                ("command", got.c.as_ref().err(), matches!((&got.c, &base.c), (Ok(a), Ok(b)) if out_same(a, b, csame)), base.c.is_ok()),
+                ("combined", got.d.as_ref().err(), matches!((&got.d, &base.d), (Ok(a), Ok(b)) if out_same(a, b, tdsame)), base.d.is_ok()),
+                ("last-request-state", got.ls.as_ref().err(), matches!((&got.ls, &base.ls), (Ok(a), Ok(b)) if osame(a, b, ssame)), base.ls.is_ok()),
+                ("last-request-command", got.lc.as_ref().err(), matches!((&got.lc, &base.lc), (Ok(a), Ok(b)) if osame(a, b, csame)), base.lc.is_ok()),
+            ];
+            for (name, panicked, equal, base_ok) in rows {
+                if !base_ok {
+                    continue; // the unguarded read itself panicked: reported by the ordinary read checks
+                }
+                ctx.rep.eval();
+                if let Some(msg) = panicked {
+                    ctx.bad(format!("C09/panic/read/{}/under-shared-borrow-of-{}", name, cfg), format!("{} read of terminal {} (partner {:?}) panicked while shared borrows (Ref) of terminals {:?} were alive: {}; without them it returns normally; {}", name, k, partner, idxs, msg, hist()));
+                } else if !equal {
+                    ctx.bad(format!("C09/read/{}/changed-under-shared-borrow-of-{}", name, cfg), format!("{} read of terminal {} (partner {:?}) differs while shared borrows (Ref) of terminals {:?} are alive; {}", name, k, partner, idxs, hist()));
+                }
+            }
+        }
+    }
+    ctx.rep.violation_count == before
+}
 fn observe_full<'a>(ctx: &mut Ctx, ts: &'a [Term<'a>], lab: &Labels, model: &Model, cmd_base: i64, tag: &str, hist: &dyn Fn() -> String) -> bool {
     let before = ctx.rep.violation_count;
     if let Some((seen, sraw)) = observe_by_state(ctx, ts, lab, hist) {
@@ -389,6 +474,7 @@ fn observe_full<'a>(ctx: &mut Ctx, ts: &'a [Term<'a>], lab: &Labels, model: &Mod
             let s: Vec<_> = sraw.into_iter().map(Some).collect();
             let c: Vec<_> = craw.into_iter().map(Some).collect();
             check_combined(ctx, ts, &s, &c, "labelled", hist);
+            guarded_reads(ctx, ts, model, hist);
         }
     }
     ctx.rep.violation_count == before
@@ -562,11 +648,11 @@ fn run_walk_on<'a>(ctx: &mut Ctx, ts: &'a [Term<'a>], rng: &mut Rng) {
     // Coincidence phase on the matching the walk ended in (n up to 6, any matching): everything the
     // terminals hold is known (labels; the commands of the last observation's second round), so the
     // read-semantics oracle applies. Mostly paired writes of related values in every stamp order.
-    let mut w = World {
-        m: m.clone(),
-        st: (0..n).map(|k| Some(lab.datum(k))).collect(),
-        cm: (0..n).map(|k| Some(Datum::new(Time(last_cmd_base + 1000 - k as i64), cmd_label(k)))).collect(),
-    };
+    let mut w = World::new(
+        m.clone(),
+        (0..n).map(|k| Some(lab.datum(k))).collect(),
+        (0..n).map(|k| Some(Datum::new(Time(last_cmd_base + 1000 - k as i64), cmd_label(k)))).collect(),
+    );
     let mut log = vec![format!("walk {} with labels {:?}, commands cmd_label(k) @{}+1000-k", fmt_ops(&done), lab, last_cmd_base)];
     let mut shape = Vec::new();
     {
@@ -587,6 +673,15 @@ fn run_walk_on<'a>(ctx: &mut Ctx, ts: &'a [Term<'a>], rng: &mut Rng) {
 fn sem_value(rng: &mut Rng) -> f32 {
     if rng.chance(0.6) {
         return rng.moderate(1e6);
+    }
+    if rng.chance(0.15) {
+        // subnormals (odd and even mantissas): halving is not exact there
+        let m = match rng.below(3) {
+            0 => 1 + rng.below(8) as u32,
+            1 => 0x007f_ffff - rng.below(8) as u32,
+            _ => 1 + rng.below(0x007f_ffff) as u32,
+        };
+        return f32::from_bits(m | if rng.chance(0.5) { 0x8000_0000 } else { 0 });
     }
     let bits = rng.next_u64() as u32;
     let exp = (bits >> 23) & 0xff;
@@ -702,6 +797,15 @@ struct World {
     m: Model,
     st: Vec<Option<Datum<State>>>,
     cm: Vec<Option<Datum<Command>>>,
+    /// getters the terminal's state / command slot currently follows, with their current content
+    fs: Vec<Option<(Src<Datum<State>>, Out<Datum<State>>)>>,
+    fc: Vec<Option<(Src<Datum<Command>>, Out<Datum<Command>>)>>,
+}
+impl World {
+    fn new(m: Model, st: Vec<Option<Datum<State>>>, cm: Vec<Option<Datum<Command>>>) -> World {
+        let n = m.n;
+        World { m, st, cm, fs: (0..n).map(|_| None).collect(), fc: (0..n).map(|_| None).collect() }
+    }
 }
 fn check_reads<'a>(ctx: &mut Ctx, ts: &'a [Term<'a>], w: &World, hist: &dyn Fn() -> String) -> bool {
     let n = ts.len();
@@ -754,9 +858,24 @@ fn check_reads<'a>(ctx: &mut Ctx, ts: &'a [Term<'a>], w: &World, hist: &dyn Fn()
                         (g.value.acceleration, x.value.acceleration, y.value.acceleration),
                     ];
                     let mut worst = 0u64;
+                    let mut inexact_but_representable = false;
                     for (o, a, b) in comps {
-                        let reference = ((a as f64 + b as f64) / 2.0) as f32;
+                        let mean64 = (a as f64 + b as f64) / 2.0;
+                        let reference = mean64 as f32;
                         worst = worst.max(ulp_dist(o, reference));
+                        // The tolerance exists for means that are not f32 numbers. Where the mean IS an f32
+                        // number (equal values on both ends, small integers, subnormals ...) the read must
+                        // be that number: "the mean of x and x is x".
+                        if reference as f64 == mean64 {
+                            ctx.rep.tally(if a.is_subnormal() || b.is_subnormal() { "sem_state_mean_representable_subnormal-operand" } else { "sem_state_mean_representable" });
+                            if !same(o, reference) {
+                                inexact_but_representable = true;
+                            }
+                        }
+                    }
+                    ctx.rep.eval();
+                    if inexact_but_representable {
+                        ctx.bad("C09/read/state/mean/exactly-representable".into(), format!("terminal {}: own {:?} partner {:?} read {:?} [{} {} {}]: a component whose mean is exactly an f32 number is not that number; {}", k, x, y, g, f(g.value.position), f(g.value.velocity), f(g.value.acceleration), hist()));
                     }
                     ctx.rep.max("state_mean_ulp_over_2", worst as f64 / 2.0);
                     if worst > 2 {
@@ -849,6 +968,27 @@ fn check_reads<'a>(ctx: &mut Ctx, ts: &'a [Term<'a>], w: &World, hist: &dyn Fn()
         ctx.rep.tally(&format!("sem_combined_{}", cc));
     }
     check_combined(ctx, ts, &sreads, &creads, "sem", hist);
+    // ---- own slots: exactly the latest datum that reached the terminal (by set or by following)
+    for k in 0..n {
+        ctx.rep.eval();
+        match last_state(&ts[k]) {
+            Ok(g) => {
+                if !osame(&g, &w.st[k], ssame) {
+                    ctx.bad("C09/read/last-request/state".into(), format!("terminal {}: own state slot holds {:?}, the latest state that reached it is {:?}; {}", k, g, w.st[k], hist()));
+                }
+            }
+            Err(p) => ctx.bad("C09/panic/read/last-request-state".into(), format!("terminal {}: {}; {}", k, p, hist())),
+        }
+        ctx.rep.eval();
+        match last_command(&ts[k]) {
+            Ok(g) => {
+                if !osame(&g, &w.cm[k], csame) {
+                    ctx.bad("C09/read/last-request/command".into(), format!("terminal {}: own command slot holds {:?}, the latest command that reached it is {:?}; {}", k, g, w.cm[k], hist()));
+                }
+            }
+            Err(p) => ctx.bad("C09/panic/read/last-request-command".into(), format!("terminal {}: {}; {}", k, p, hist())),
+        }
+    }
     // ---- two connected terminals read the same state
     for &(a, b) in &w.m.pairs {
         ctx.rep.eval();
@@ -872,7 +1012,7 @@ fn run_sem(ctx: &mut Ctx, seed: u64) {
 }
 fn run_sem_on<'a>(ctx: &mut Ctx, ts: &'a [Term<'a>], rng: &mut Rng) {
     let n = ts.len();
-    let mut w = World { m: Model::new(n), st: vec![None; n], cm: vec![None; n] };
+    let mut w = World::new(Model::new(n), vec![None; n], vec![None; n]);
     let mut log: Vec<String> = Vec::new();
     let mut shape: Vec<(u8, usize, usize)> = Vec::new(); // structural history (no values): the distinct key
     let steps = 8 + rng.usize(13);
@@ -934,7 +1074,12 @@ fn sem_steps<'a>(ctx: &mut Ctx, ts: &'a [Term<'a>], rng: &mut Rng, w: &mut World
     let pool = [special_state(rng), sem_state(rng), State::new_raw(0.0, 0.0, 0.0)];
     for _ in 0..steps {
         let r = if pair_heavy { 45 + rng.below(40) } else { rng.below(100) };
-        if r < 25 {
+        if rng.chance(0.25) {
+            // data delivery by FOLLOWING: follow(getter) + Terminal::update() instead of set
+            if !follow_step(ctx, ts, rng, w, log, shape, &pool) {
+                return false;
+            }
+        } else if r < 25 {
             // single state write, related to what the partner holds
             let k = rng.usize(n);
             let po = w.m.partner(k).and_then(|j| w.st[j]);
@@ -1012,6 +1157,214 @@ fn sem_steps<'a>(ctx: &mut Ctx, ts: &'a [Term<'a>], rng: &mut Rng, w: &mut World
         if !check_reads(ctx, ts, w, &hist) {
             return false;
         }
+        if rng.chance(0.4) && !guarded_reads(ctx, ts, &w.m, &hist) {
+            return false;
+        }
+    }
+    true
+}
+/// Stamp for a followed datum relative to a stored one: strictly older / equal / strictly newer.
+fn rel_stamp(rng: &mut Rng, reference: Option<i64>) -> i64 {
+    match reference {
+        Some(p) => {
+            let gap = match rng.below(3) {
+                0 => 1,
+                1 => rng.range_i64(1, 30),
+                _ => rng.range_i64(1, 1 << 40),
+            };
+            match rng.below(3) {
+                0 => p,
+                1 => p.checked_sub(gap).unwrap_or(p),
+                _ => p.checked_add(gap).unwrap_or(p),
+            }
+        }
+        None => sem_stamp(rng, None),
+    }
+}
+fn order_word(new: i64, stored: Option<i64>) -> &'static str {
+    match stored {
+        None => "first",
+        Some(s) if new < s => "older",
+        Some(s) if new == s => "equal",
+        Some(_) => "newer",
+    }
+}
+/// One delivery by following on a random terminal: (start following,) refresh what the followed getters
+/// return, call `Terminal::update()`. Model: a present followed datum becomes the own slot's content
+/// whatever its stamp; an absent one changes nothing; an erring getter makes update return that error
+/// with the slot unchanged. (Which slot is polled first is not promised, so whenever one followed getter
+/// errs the other one is made absent or erring too.)
+fn follow_step<'a>(ctx: &mut Ctx, ts: &'a [Term<'a>], rng: &mut Rng, w: &mut World, log: &mut Vec<String>, shape: &mut Vec<(u8, usize, usize)>, pool: &[State]) -> bool {
+    let n = ts.len();
+    let k = rng.usize(n);
+    let which = rng.below(3); // 0 state, 1 command, 2 both are refreshed this time
+    let partner = w.m.partner(k);
+    // occasionally stop following first (then update must leave that slot alone)
+    if rng.chance(0.08) && w.fs[k].is_some() {
+        if let Err(p) = catch(|| Settable::<Datum<State>, E>::stop_following(&mut *ts[k].borrow_mut())) {
+            ctx.bad("C09/panic/stop-following/state".into(), format!("terminal {}: {}; after {:?}", k, p, log));
+            return false;
+        }
+        w.fs[k] = None;
+        ctx.rep.tally("follow_state_stopped");
+        log.push(format!("t{}.stop_following(state)", k));
+    }
+    if rng.chance(0.08) && w.fc[k].is_some() {
+        if let Err(p) = catch(|| Settable::<Datum<Command>, E>::stop_following(&mut *ts[k].borrow_mut())) {
+            ctx.bad("C09/panic/stop-following/command".into(), format!("terminal {}: {}; after {:?}", k, p, log));
+            return false;
+        }
+        w.fc[k] = None;
+        ctx.rep.tally("follow_command_stopped");
+        log.push(format!("t{}.stop_following(command)", k));
+    }
+    if which != 1 {
+        if w.fs[k].is_none() {
+            let src: Src<Datum<State>> = Src::new();
+            let r = src.dynref();
+            if let Err(p) = catch(|| Settable::<Datum<State>, E>::follow(&mut *ts[k].borrow_mut(), r)) {
+                ctx.bad("C09/panic/follow/state".into(), format!("terminal {}: {}; after {:?}", k, p, log));
+                return false;
+            }
+            w.fs[k] = Some((src, Ok(None)));
+            log.push(format!("t{}.follow(state getter)", k));
+        }
+        let stored = w.st[k].map(|d| d.time.0);
+        let pstored = partner.and_then(|j| w.st[j]).map(|d| d.time.0);
+        let content: Out<Datum<State>> = match rng.below(10) {
+            0 => Ok(None),
+            1 => Err(err_code(rng.below(3) as u8)),
+            _ => {
+                let reference = if rng.chance(0.5) { stored.or(pstored) } else { pstored.or(stored) };
+                let t = rel_stamp(rng, reference);
+                let other = if rng.chance(0.5) { partner.and_then(|j| w.st[j]).map(|d| d.value) } else { w.st[k].map(|d| d.value) };
+                let inner = Datum::new(Time(t), state_related(rng, other, pool));
+                let outer = if rng.chance(0.5) { t } else { rng.stamp() };
+                Ok(Some(Datum::new(Time(outer), inner)))
+            }
+        };
+        let (src, cur) = w.fs[k].as_mut().unwrap();
+        src.set(content.clone());
+        *cur = content;
+    }
+    if which != 0 {
+        if w.fc[k].is_none() {
+            let src: Src<Datum<Command>> = Src::new();
+            let r = src.dynref();
+            if let Err(p) = catch(|| Settable::<Datum<Command>, E>::follow(&mut *ts[k].borrow_mut(), r)) {
+                ctx.bad("C09/panic/follow/command".into(), format!("terminal {}: {}; after {:?}", k, p, log));
+                return false;
+            }
+            w.fc[k] = Some((src, Ok(None)));
+            log.push(format!("t{}.follow(command getter)", k));
+        }
+        let stored = w.cm[k].map(|d| d.time.0);
+        let pstored = partner.and_then(|j| w.cm[j]).map(|d| d.time.0);
+        let content: Out<Datum<Command>> = match rng.below(10) {
+            0 => Ok(None),
+            1 => Err(err_code(rng.below(3) as u8)),
+            _ => {
+                let reference = if rng.chance(0.5) { stored.or(pstored) } else { pstored.or(stored) };
+                let t = rel_stamp(rng, reference);
+                let other = if rng.chance(0.5) { partner.and_then(|j| w.cm[j]).map(|d| d.value) } else { w.cm[k].map(|d| d.value) };
+                let inner = Datum::new(Time(t), command_related(rng, other));
+                let outer = if rng.chance(0.5) { t } else { rng.stamp() };
+                Ok(Some(Datum::new(Time(outer), inner)))
+            }
+        };
+        let (src, cur) = w.fc[k].as_mut().unwrap();
+        src.set(content.clone());
+        *cur = content;
+    }
+    // if one followed getter errs, the other must not carry a datum (polling order is not promised)
+    let s_err = matches!(&w.fs[k], Some((_, Err(_))));
+    let c_err = matches!(&w.fc[k], Some((_, Err(_))));
+    if c_err {
+        if let Some((src, cur)) = w.fs[k].as_mut() {
+            if matches!(cur, Ok(Some(_))) {
+                src.set(Ok(None));
+                *cur = Ok(None);
+            }
+        }
+    }
+    if s_err {
+        if let Some((src, cur)) = w.fc[k].as_mut() {
+            if matches!(cur, Ok(Some(_))) {
+                src.set(Ok(None));
+                *cur = Ok(None);
+            }
+        }
+    }
+    let s_now: Option<Out<Datum<State>>> = w.fs[k].as_ref().map(|x| x.1.clone());
+    let c_now: Option<Out<Datum<Command>>> = w.fc[k].as_ref().map(|x| x.1.clone());
+    log.push(format!("t{}.update() with followed state getter -> {:?}, followed command getter -> {:?}", k, s_now, c_now));
+    shape.push((6, k, which as usize));
+    let ret = match catch(|| Updatable::<E>::update(&mut *ts[k].borrow_mut())) {
+        Ok(r) => r,
+        Err(p) => {
+            ctx.bad("C09/panic/update".into(), format!("update() of terminal {} panicked: {}; after {:?}", k, p, log));
+            return false;
+        }
+    };
+    // ---- model
+    let mut errs: Vec<Error<E>> = Vec::new();
+    let partner_s = partner.and_then(|j| w.st[j]).map(|d| d.time.0);
+    let partner_c = partner.and_then(|j| w.cm[j]).map(|d| d.time.0);
+    match &s_now {
+        None => ctx.rep.tally("follow_state_not-following"),
+        Some(Ok(None)) => ctx.rep.tally("follow_state_absent"),
+        Some(Err(e)) => {
+            ctx.rep.tally("follow_state_err");
+            errs.push(*e);
+        }
+        Some(Ok(Some(d))) => {
+            let inner = d.value;
+            ctx.rep.tally(&format!("follow_state_delivered_{}-than-stored", order_word(inner.time.0, w.st[k].map(|x| x.time.0))));
+            if partner.is_some() {
+                ctx.rep.tally(&format!("follow_state_delivered_{}-than-partners", order_word(inner.time.0, partner_s)));
+            }
+            if let Some(old) = w.st[k] {
+                if !ssame(&old.value, &inner.value) {
+                    ctx.rep.tally(&format!("follow_state_delivered_new-value_{}-than-stored", order_word(inner.time.0, Some(old.time.0))));
+                }
+            }
+            w.st[k] = Some(inner);
+        }
+    }
+    match &c_now {
+        None => ctx.rep.tally("follow_command_not-following"),
+        Some(Ok(None)) => ctx.rep.tally("follow_command_absent"),
+        Some(Err(e)) => {
+            ctx.rep.tally("follow_command_err");
+            errs.push(*e);
+        }
+        Some(Ok(Some(d))) => {
+            let inner = d.value;
+            ctx.rep.tally(&format!("follow_command_delivered_{}-than-stored", order_word(inner.time.0, w.cm[k].map(|x| x.time.0))));
+            if partner.is_some() {
+                ctx.rep.tally(&format!("follow_command_delivered_{}-than-partners", order_word(inner.time.0, partner_c)));
+            }
+            if let Some(old) = w.cm[k] {
+                if !csame(&old.value, &inner.value) {
+                    ctx.rep.tally(&format!("follow_command_delivered_new-value_{}-than-stored", order_word(inner.time.0, Some(old.time.0))));
+                }
+            }
+            w.cm[k] = Some(inner);
+        }
+    }
+    ctx.rep.eval();
+    ctx.rep.tally("follow_updates");
+    let ret_ok = match (&ret, errs.is_empty()) {
+        (Ok(()), true) => true,
+        (Err(e), false) => errs.iter().any(|x| x == e),
+        _ => false,
+    };
+    if !errs.is_empty() {
+        ctx.rep.tally("follow_update_expected_err");
+    }
+    if !ret_ok {
+        ctx.bad("C09/follow/update-return".into(), format!("update() of terminal {} returned {:?}; the followed getters' errors were {:?}; after {:?}", k, ret, errs, log));
+        return false;
     }
     true
 }
@@ -1138,6 +1491,26 @@ fn main() {
             rep.floor(&format!("sem_state_values_equal_stamps_f32-confusable_{}", order), 1000);
             rep.floor(&format!("sem_command_stamps_f32-confusable_both-{}", order), 1000);
         }
+        // reads under outstanding shared borrows
+        for t in ["guarded_reads_self_linked", "guarded_reads_self_unlinked", "guarded_reads_partner_linked", "guarded_reads_both_linked", "guarded_reads_unrelated_linked", "guarded_reads_unrelated_unlinked"] {
+            rep.floor(t, 1000);
+        }
+        // delivery by following: every stamp order against the stored datum and against the partner's
+        for slot in ["state", "command"] {
+            for o in ["first", "older", "equal", "newer"] {
+                rep.floor(&format!("follow_{}_delivered_{}-than-stored", slot, o), 500);
+                rep.floor(&format!("follow_{}_delivered_{}-than-partners", slot, o), 300);
+            }
+            for o in ["older", "equal", "newer"] {
+                rep.floor(&format!("follow_{}_delivered_new-value_{}-than-stored", slot, o), 500);
+            }
+            rep.floor(&format!("follow_{}_absent", slot), 500);
+            rep.floor(&format!("follow_{}_err", slot), 500);
+            rep.floor(&format!("follow_{}_stopped", slot), 100);
+        }
+        rep.floor("follow_update_expected_err", 500);
+        rep.floor("sem_state_mean_representable", 1000);
+        rep.floor("sem_state_mean_representable_subnormal-operand", 1000);
         rep.floor("sem_cases_completed", fl(20_000, 3_000_000));
     }
     rep.finish(&args);
